@@ -62,6 +62,13 @@ impl Decoder for FrameCodec {
         use bytes::Buf;
         use serde_amqp::de::Deserializer;
 
+        // A frame whose size field is smaller than the 8 byte frame header leaves fewer than
+        // the 4 remaining header bytes here
+        if src.len() < 4 {
+            return Err(Error::DecodeError(
+                "frame is smaller than the frame header".to_string(),
+            ));
+        }
         let doff = src.get_u8();
         let ftype = src.get_u8();
         let _ignored = src.get_u16();
